@@ -1,2 +1,94 @@
-(** placeholder until the C18 theorems are in place *)
-From Texel Require Import Prelude.Base.
+(** * C18 — moderately collapsing polygons are reduced without inventing geometry.  PARTIAL.
+
+    The central invariant is conservation of directed edges modulo cancellation of opposite pairs
+    (and, through it, of signed area: [xprod] is a sum over directed edges).  Vocabulary:
+    [dedges r] = the directed cyclic edges of a ring, [all_dedges rs] = those of a list of rings,
+    [swap (a, b) = (b, a)], [xprod] = twice the signed area, [sum_xprod] = its sum over rings.
+
+    Proved for ALL inputs:
+    - splitRing conserves the directed edges exactly (hence the area), except in the documented branch in
+      which every piece of a shell was classified as a hole (or vice versa) and all pieces are reversed;
+    - dedupeInnersOuters deletes only shells and holes with exactly opposite edges (a cancelling pair);
+    - the per-level assembly (dedupe + match + unmatched holes turned shells) conserves edges modulo such pairs;
+    - kmpDeduplicate returns a subsequence of its input and is the identity when the chain never steps back.
+    Proved for a BOUNDED domain stated in the theorem (not the general claim): kmpDeduplicate conserves the
+    directed edges modulo cancellation for every chain over <= 5 pixel centres of length <= 9 in the class of
+    the property (each centre at most twice).  The general lemma [kmp_conserves_le2] is NOT proved.
+    Outside the class the statement is false: [C18_class_boundary_F5] (four visits).
+    The nesting clause ("every hole lies inside or on its shell") has no theorem: search only. *)
+From Coq Require Import ZArith List Bool Permutation.
+From Texel Require Import Prelude.Base Index.Model Snap.Model Snap.ProofsBasics Snap.ProofsSplit
+  Snap.ProofsSplitRefine Snap.ProofsSplitThms Snap.ProofsDedupeCancel Snap.ProofsLevel Snap.ProofsLevelThms
+  Snap.ProofsLevelEdges Snap.ProofsKmpSubseq Snap.ProofsKmpEnum Snap.ProofsKmpEdges.
+Import ListNotations.
+Open Scope Z_scope.
+
+(** splitRing: the rings before the orientation swap carry exactly the directed edges of the input ring *)
+Theorem C18_split_conserves : forall (r : ring) isOuter isMulti sets, splitRing r isOuter isMulti = Ok sets ->
+  exists s0, sets = (if swapb isOuter s0 then swapSets isOuter s0 else s0) /\
+             Permutation (all_dedges (rings_of_sets s0)) (dedges r).
+Proof. exact split_conserves. Qed.
+Print Assumptions C18_split_conserves.
+
+(** ... hence the signed area: equal, or (only when all pieces landed on one side) equal after undoing the swap *)
+Theorem C18_split_area : forall (r : ring) isOuter isMulti sets, splitRing r isOuter isMulti = Ok sets ->
+  sum_xprod (rings_of_sets sets) = xprod r \/
+  ((outers sets = [] \/ inners sets = []) /\ sum_xprod (unswap sets) = xprod r).
+Proof. exact split_area. Qed.
+Print Assumptions C18_split_area.
+
+(** dedupeInnersOuters: what is deleted are shells dO and holes dI with exactly opposite edges *)
+Theorem C18_dedupe_cancels : forall outs ins outs' ins', dedupeInnersOuters outs ins = Ok (outs', ins') ->
+  exists dO dI, Permutation outs (outs' ++ dO) /\ Permutation ins (ins' ++ dI) /\
+                Permutation (all_dedges dI) (map swap (all_dedges dO)).
+Proof. exact dedupe_cancels. Qed.
+Print Assumptions C18_dedupe_cancels.
+
+(** one level: the edges of the returned polygons are those of the collected shells and holes, minus cancelling
+    shell/hole pairs, with the holes that found no shell ([tu]) reversed *)
+Theorem C18_level_edges_cancel : forall cfg acc polys, aAlive acc = true -> reverseWindingOrder cfg = false ->
+  levelPolys cfg acc = Ok polys ->
+  exists dO dI tu,
+    Permutation (all_dedges dI) (map swap (all_dedges dO)) /\
+    Permutation (all_dedges (concat polys) ++ all_dedges dO ++ all_dedges dI ++ all_dedges tu)
+                (all_dedges (aOuters acc ++ aInners acc) ++ map swap (all_dedges tu)).
+Proof. exact level_edges_cancel. Qed.
+Print Assumptions C18_level_edges_cancel.
+
+(** kmpDeduplicate only removes vertices ... *)
+Theorem C18_kmp_subsequence : forall r r', kmpDeduplicate r = Ok r' -> subseq r' r.
+Proof. exact kmp_subseq. Qed.
+Print Assumptions C18_kmp_subsequence.
+
+(** ... and removes nothing when no centre is visited twice *)
+Theorem C18_kmp_identity_NoDup : forall r, NoDup r -> kmpDeduplicate r = Ok r.
+Proof. exact kmp_id_NoDup. Qed.
+Print Assumptions C18_kmp_identity_NoDup.
+
+(** BOUNDED (the bound is part of the statement): every chain [w] over at most 5 pixel centres, of length at most
+    9, without equal neighbours, first <> last, each centre at most twice — the class of C18 — is reduced by
+    kmpDeduplicate with directed edges conserved modulo cancelling pairs ([conserves]).  By exhaustive
+    evaluation inside Coq, lifted with forallb_forall. *)
+Theorem C18_kmp_conserves_le2_partial_upto_9 : forall w,
+  (length w <= 9)%nat -> Forall (fun a => (a < 5)%nat) w ->
+  nen_from 5 w = true -> first_ne_last w = true -> visits_le 2 w = true ->
+  exists r', kmpDeduplicate (chain w) = Ok r' /\ conserves (cedges (chain w)) (cedges r').
+Proof. exact kmp_conserves_le2_upto_9. Qed.
+Print Assumptions C18_kmp_conserves_le2_partial_upto_9.
+
+(** the class boundary is real: with four visits an edge is invented (finding F5) *)
+Theorem C18_class_boundary_F5 : exists r r' e,
+  kmpDeduplicate r = Ok r' /\ In e (cedges r') /\ ~ In e (cedges r) /\ ~ In (swap e) (cedges r).
+Proof. exact F5_invented_edge. Qed.
+Print Assumptions C18_class_boundary_F5.
+
+(** non-vacuity: a figure eight visiting (2,2) twice is split into two rings that together carry exactly its
+    directed edges and its area; of two equal shells and one equal, opposite hole, a shell/hole pair cancels *)
+Example C18_example :
+  splitRing [(0,0);(2,2);(4,0);(4,4);(2,2);(0,4)] true (fun p => pt_eqb p (2,2)) =
+    Ok (mkSets [[(0,0);(2,2);(0,4)]; [(2,2);(4,0);(4,4)]] [] []) /\
+  xprod [(0,0);(2,2);(4,0);(4,4);(2,2);(0,4)] = xprod [(0,0);(2,2);(0,4)] + xprod [(2,2);(4,0);(4,4)] /\
+  dedupeInnersOuters [[(0,0);(4,0);(4,4)]; [(0,0);(4,0);(4,4)]] [[(4,4);(4,0);(0,0)]] = Ok ([[(0,0);(4,0);(4,4)]], []) /\
+  kmpDeduplicate [(0,0);(4,0);(8,0);(4,0);(4,4)] = Ok [(0,0);(4,0);(8,0);(4,0);(4,4)] /\
+  kmpDeduplicate [(0,0);(4,0);(0,0);(4,0);(0,0);(4,0);(4,4)] = Ok [(0,0);(4,0);(4,4)].
+Proof. vm_compute. repeat split; reflexivity. Qed.
